@@ -289,7 +289,7 @@ class ExprMixin:
         raise Unsupported(f"not an int: {v!r}")
 
     def as_ref(self, v, st):
-        if v.k in ("ref", "func", "cls", "module"):
+        if v.k in ("ref", "func", "cls", "module", "closure"):
             return v.t
         if v.k == "val":
             return Val.r(v.t)
